@@ -331,7 +331,7 @@ func RunC16(d *Driver) *Report {
 		"a := [1 2 3]\nx := a[2:1]\nx = x\n", "a := [1 2 3]\nx := a[-1:1]\nx = x\n", "s := \"abc\"\nx := s[3:2]\nx = x\n", "a := [1 2 3]\nx := a[1.5:]\nx = x\n",
 		"a := [1 2 3]\nx := a[:4]\nx = x\n", "a := [1 2 3]\nx := a[-4:]\nx = x\n", "a := [1 2 3]\nx := a[3:]\ny := a[:0]\nz := a[1:1]\nx = x\ny = y\nz = z\n",
 		"a := [1 2]\nx := a * 1.5\nx = x\n", "a := [1 2]\nx := a * -1\nx = x\n", "a := [1 2]\nx := a * 100000000000\nx = x\n", "a := [1 2]\nx := a * 0\ny := a * 1\nz := a * 3\nx = x\ny = y\nz = z\n",
-		"e:[]num\nx := e * -1\nx = x\n", "e:[]num\nx := e * 5\nx = x\n",
+		"e:[]num\nx := e * -1\nx = x\n", "e:[]num\nx := e * 5\nx = x\n", "x := [] * -1\nx = x\n", "x := [] * 1.5\nx = x\n", "a := [1 2][2:]\nb := a * -2\nb = b\n", "a := [1 2]\nn := 0\nwhile n > -3\n    n = n - 1\nend\nb := a[2:] * n\nb = b\n", "a := [1 2][1:1]\nb := a * 2.5\nc := 1\nb = b\nc = c\n",
 		"m := {a:1 b:2}\nn := {b:2 a:1}\no := {a:1}\np := {a:1 b:3}\nq := {a:1 c:2}\nx := m == n\ny := m == o\nz := m != p\nw := m == q\nv := m == m\nx = x\ny = y\nz = z\nw = w\nv = v\n",
 		"m := {a:[1 2]}\nn := {a:[1 2]}\no := {a:[1 3]}\nx := m == n\ny := m == o\nx = x\ny = y\n", "e := {}\nf := {}\nx := e == f\nx = x\n",
 		"a := [[1] [2]]\nb := [[1] [2]]\nc := [[1] [3]]\nx := a == b\ny := a == c\nz := a != c\nx = x\ny = y\nz = z\n",
